@@ -143,6 +143,16 @@ fn main() {
                 }
                 format!("diagnostics={} reports={} panics={} write_errors={} escapes_when_colourless={} nonascii_when_ascii={}", errors.len(), reports, panics, failed, esc, nonascii)
             }
+            // C13: the complete diagnostics (Debug form, hex-encoded) so that every Location in them can be checked against the source
+            "alphadump" => {
+                let src = String::from_utf8(bytes).unwrap();
+                let decls = alpha_front(&src);
+                let decls = penne::alpha::expander::expand_one("replay.pn", decls);
+                let (line, errors) = alpha_rest_full(decls);
+                let dump = format!("{:?}", errors);
+                let hex: String = dump.bytes().map(|b| format!("{:02x}", b)).collect();
+                format!("{} dump={}", line, hex)
+            }
             // several modules in one input (sections introduced by lines `//// FILE: <path>`), expanded together as the
             // compiler does for one invocation; every module is then analysed on its own; prints the codes per module
             "alphamulti" => {
@@ -213,7 +223,15 @@ fn main() {
                 let hex = |s: String| s.bytes().map(|b| format!("{:02x}", b)).collect::<String>();
                 let valid_utf8 = std::str::from_utf8(&bytes).is_ok();
                 let lines: Vec<String> = if valid_utf8 { tokens.as_xml(&src).collect() } else { Vec::new() };
-                format!("n={} errors={:?} toks={}", tokens.base_tokens().len(), codes, hex(lines.join("\n"))).replace(", ", ",")
+                // byte span, line number and column of every token (TokenIds are walked with the public advance())
+                let mut locs: Vec<String> = Vec::new();
+                let mut id = tokens.first_token_id();
+                for _ in 0..tokens.base_tokens().len() {
+                    let l = tokens.get_location(id);
+                    locs.push(format!("{}-{}-{}-{}", l.span.start, l.span.end, l.line_number, l.line_offset));
+                    tokens.advance(&mut id);
+                }
+                format!("n={} errors={:?} toks={} locs={}", tokens.base_tokens().len(), codes, hex(lines.join("\n")), locs.join("|")).replace(", ", ",")
             }
             // lexing, parsing, header extraction only (no XML dump): tells a crash of the parser from a crash of the printer
             "deltaparse" => {
